@@ -126,6 +126,9 @@ func checkC08(c *StabilityCase) error {
 	}
 	st := ss.run(attempt{l: l, pacing: c.E.Pacing, handler: handler})
 	st.drainLib()
+	if err := st.panicErr(); err != nil {
+		return err
+	}
 	if !st.served {
 		return fmt.Errorf("harness: dump request not servable")
 	}
@@ -259,6 +262,7 @@ func TestC08(t *testing.T) {
 		if nt {
 			rec.Sample(c)
 		}
+		journal("C08", "c08", c)
 		if err := checkC08(c); err != nil {
 			rec.Violation("c08", c, "", err)
 			rt.Fatalf("C08 violation: %v", err)
